@@ -7,6 +7,7 @@ import (
 	"os"
 	"sort"
 	"strings"
+	"sync"
 
 	"golang.org/x/tools/go/packages"
 	"golang.org/x/tools/go/ssa"
@@ -23,6 +24,9 @@ type Program struct {
 	Tags  string
 	// all functions by canonical name "pkgpath.(recv).name"
 	funcs map[string]*ssa.Function
+
+	globOnce sync.Once
+	globMut  map[*ssa.Global]bool
 }
 
 // LoadProgram loads the given package patterns of /repo's working tree (and their deps) into SSA.
